@@ -305,17 +305,19 @@ pub fn repr() -> impl Strategy<Value = Repr> {
     prop_oneof![3 => Just(Repr::PreferIndexed), 2 => Just(Repr::LiteralIndexed), 1 => Just(Repr::LiteralNotIndexed), 1 => Just(Repr::LiteralNeverIndexed)]
 }
 
-pub const H2_REQ_NAMES: [&str; 22] = [
+pub const H2_REQ_NAMES: [&str; 24] = [
+    "accept-charset", "keep-alive",
     "user-agent", "accept", "accept-language", "accept-encoding", "cookie", "referer", "origin", "cache-control", "range", "if-none-match", "via", "authorization", "host", "connection",
     "upgrade-insecure-requests", "sec-fetch-mode", "sec-ch-ua", "dnt", "te", "pragma", "content-length", "content-type",
 ];
-pub const H2_RESP_NAMES: [&str; 16] = ["server", "date", "content-type", "content-length", "set-cookie", "last-modified", "etag", "cache-control", "expires", "vary", "location", "accept-ranges", "x-powered-by", "alt-svc", "content-encoding", "strict-transport-security"];
+pub const H2_RESP_NAMES: [&str; 18] = ["connection", "keep-alive", "server", "date", "content-type", "content-length", "set-cookie", "last-modified", "etag", "cache-control", "expires", "vary", "location", "accept-ranges", "x-powered-by", "alt-svc", "content-encoding", "strict-transport-security"];
 
 pub fn h2_value() -> impl Strategy<Value = Vec<u8>> {
     prop_oneof![
         5 => prop_oneof![Just("*/*"), Just("gzip, deflate, br"), Just("en-US,en;q=0.9,fr;q=0.8"), Just("Mozilla/5.0 (X11; Linux x86_64) Chrome/96.0"), Just("a=1; b=2"), Just("https://example.com/"), Just("nginx"), Just("text/html"), Just("max-age=0")].prop_map(|s| s.as_bytes().to_vec()),
         3 => "[!-~]([ -~]{0,40}[!-~])?".prop_map(|s| s.into_bytes()),
         1 => "[a-zéü日本]{1,8}".prop_map(|s| s.into_bytes()),
+        1 => Just(vec![]),
     ]
 }
 
